@@ -519,6 +519,81 @@ let c01_crdtm t =
   done;
   String.concat " # " (List.rev !outs)
 
+
+(* ---------- C11: subscriptions ---------- *)
+let rec p_expr t = match tok t with
+  | "c" -> let p = ti t in let c = ti t in ECol (nat_of_int p, nat_of_int c)
+  | "k" -> EConst (tz t)
+  | "n" -> ENull
+  | "+" -> let a = p_expr t in let b = p_expr t in EAdd (a, b)
+  | "=" -> let a = p_expr t in let b = p_expr t in EEq (a, b)
+  | "<" -> let a = p_expr t in let b = p_expr t in ELt (a, b)
+  | "&" -> let a = p_expr t in let b = p_expr t in EAnd (a, b)
+  | "|" -> let a = p_expr t in let b = p_expr t in EOr (a, b)
+  | "!" -> ENot (p_expr t)
+  | "z" -> EIsNull (p_expr t)
+  | x -> failwith ("bad expr " ^ x)
+let p_query t =
+  if tok t <> "q" then failwith "query expected";
+  let kind = ti t in
+  let t0 = ti t in
+  let (k, t1, on) =
+    if kind = 0 then (JSingle, 0, EConst (z_of_small 1))
+    else let t1 = ti t in let on = p_expr t in ((if kind = 1 then JInner else JLeft), t1, on) in
+  let wh = p_expr t in
+  let np = ti t in
+  let proj = tlist t np p_expr in
+  { q_kind = k; q_t0 = nat_of_int t0; q_t1 = nat_of_int t1; q_on = on; q_where = wh; q_proj = proj }
+let split_on c s = if s = "" then [] else String.split_on_char c s
+let p_cell s = if s = "n" then None else Some (z_of_string s)
+(* "k.k:v,v;k:v,v|...|..." *)
+let p_dbdump s =
+  List.map (fun tb ->
+      List.map (fun r ->
+          match String.split_on_char ':' r with
+          | [ks; vs] -> (List.map z_of_string (split_on '.' ks), List.map p_cell (split_on ',' vs))
+          | _ -> failwith "bad row") (split_on ';' tb))
+    (String.split_on_char '|' s)
+let fmt_cell = function None -> "n" | Some z -> sz z
+let fmt_cells cs = join "," fmt_cell cs
+let fmt_mkey mk = join "/" (function None -> "-" | Some k -> join "." sz k) mk
+let p_mkey s = List.map (fun c -> if c = "-" then None else Some (List.map z_of_string (split_on '.' c))) (String.split_on_char '/' s)
+let fmt_evk = function EvIns -> "I" | EvUpd -> "U" | EvDel -> "D"
+(* ivm <nq> {query} <nsteps> {dbdump} : first dump = state at the initial query *)
+let c11_ivm t =
+  let nq = ti t in
+  let qs = tlist t nq p_query in
+  let ns = ti t in
+  let dumps = tlist t ns (fun t -> p_dbdump (tok t)) in
+  match dumps with
+  | [] -> ""
+  | d0 :: rest ->
+    let ms = ref (List.map (fun q -> (q, m_init q d0)) qs) in
+    let fmt_mv m = String.concat ";" (List.sort compare (List.map (fun (_, (mk, c)) -> fmt_mkey mk ^ ":" ^ fmt_cells c) m.m_rows)) in
+    let outs = ref [String.concat " ; " (List.map (fun (_, m) -> "cid=" ^ sz m.m_cid ^ " mv=" ^ fmt_mv m ^ " ev=") !ms)] in
+    let prev = ref d0 in
+    List.iter (fun d ->
+        let step = List.map (fun (q, m) ->
+            let (m', evs) = handle_candidates q d m (cands_of q !prev d) in
+            let es = List.sort compare (List.map (fun (((k, _), mk), c) -> fmt_evk k ^ ":" ^ fmt_mkey mk ^ ":" ^ fmt_cells c) evs) in
+            ((q, m'), "cid=" ^ sz m'.m_cid ^ " mv=" ^ fmt_mv m' ^ " ev=" ^ String.concat ";" es)) !ms in
+        ms := List.map fst step;
+        outs := String.concat " ; " (List.map snd step) :: !outs;
+        prev := d) rest;
+    String.concat " # " (List.rev !outs)
+(* chk_sub {query} <dbprev> <dbcur> <nev> {kind mkey cells} : events = exact difference of the query results *)
+let c11_chk t =
+  let q = p_query t in
+  let dp = p_dbdump (tok t) in
+  let dc = p_dbdump (tok t) in
+  let n = ti t in
+  let evs = tlist t n (fun t ->
+      let k = (match tok t with "I" -> EvIns | "U" -> EvUpd | "D" -> EvDel | x -> failwith ("bad kind " ^ x)) in
+      let mk = p_mkey (tok t) in
+      let c = List.map p_cell (split_on ',' (tok t)) in
+      ((k, mk), c)) in
+  "ok=" ^ sb (diff_ok (eval q dp) (eval q dc) evs)
+
 (* ---------- dispatch ---------- *)
 let handlers : (string * (toks -> string)) list ref = ref [
   "chunks", c08_chunks;
@@ -532,6 +607,8 @@ let handlers : (string * (toks -> string)) list ref = ref [
   "members", c18_members;
   "chk_members", c18_chk;
   "crdtm", c01_crdtm;
+  "ivm", c11_ivm;
+  "chk_sub", c11_chk;
   "fromconn", c06_fromconn;
   "chk_reload", c06_chk;
   "ltxm", c07_ltxm;
